@@ -66,7 +66,7 @@ CLAIMED["C20"] = dict(cat="exploration",
    tech="deterministic simulation: reference map model vs real backends on tmpfs, crash injection at the publish point, planted foreign files")
 CLAIMED["C17"] = dict(cat="exploration",
    text="Seeded simulation: generated collections of 0-6 index files (duplicates across packs and files, the same id under both types, empty packs, marked packs, packs listed normally and marked, boundary offsets/sizes), written by the simulator's own JSON writer and AEAD encoder, are loaded through the real rayon loader in all three modes (full, ids-only, trees-only) under seeded gate schedules that permute the arrival order of the index files, pool sizes 1-3; every listed id, its neighbours, pack ids, special and random ids are queried through the verif hooks and judged against a map model built from the generator's data; one load per position of a failing index read and one with a failing listing must return Err or a complete index.",
-   ref="5 C17", note="Packs mixing blob types are outside the statement's domain: deviations there are counted, not flagged. The *_checked loaders are not covered.",
+   ref="5 C17", note="Packs mixing blob types are outside the statement's domain: deviations there are counted, not flagged. The *_checked loaders are not covered. The data size total is asserted in the full and ids-only modes (the trees-only mode drops data).",
    tech="deterministic simulation: reference map model vs real parallel index loader under seeded arrival orders and read faults")
 CLAIMED["C06"] = dict(cat="exploration",
    text="Seeded simulation of the chunk iterator (through the verif hook) over accepted parameter sets (rabin avg 2^12..2^20 with min from 4096 up to avg and max up to 8*avg at and around all boundaries, rarely smaller refused ones, seeded irreducible polynomials; fixed sizes incl. primes) x streams (random, zeros, periodic, text, boundary-dense by solving for fingerprint zeros, targeted at min+-1 / min+63..65 / max-1) x reader behaviours (whole, 1-byte, capped, seeded short reads, Interrupted bursts, sticky hard error, size-hint variants): concatenation equals the stream, size bounds, identical chunk lists across reader behaviours, every cut below max at the first position whose non-rolling GF(2) reference fingerprint of the last 64 bytes has its masked bits zero, restart and suffix locality, Err exactly on a hard read error, no panic; a quarter of the runs also archive streams through Repository::archive and read the content ids back.",
